@@ -126,7 +126,7 @@ func (g *gen) richInit(code string) string {
 	}
 	key := func(sc string, i int) string {
 		if sc == "str" {
-			return "s:" + hx([]string{"k1", "é", "key two", "a=b", "K", "x#y", "z;"}[i%7])
+			return "s:" + hx([]string{"k1", "é", "key two", "a=b", "K", "x#y", "z;", "a\tb", "\"q", "nl\nkey"}[i%10])
 		}
 		if sc[0] == 'u' {
 			return "u:" + strconv.Itoa(i+1)
@@ -157,9 +157,10 @@ func (g *gen) richInit(code string) string {
 		}
 		kv := strings.Split(code[1:], ",")
 		n := g.r.Intn(4)
+		off := g.r.Intn(10)
 		var items []string
 		for i := 0; i < n; i++ {
-			items = append(items, key(kv[0], i)+"="+sv(kv[1]))
+			items = append(items, key(kv[0], off+i)+"="+sv(kv[1]))
 		}
 		return "M[" + strings.Join(items, ",")
 	}
@@ -362,6 +363,15 @@ func checkC12(c *Ctx, n int) {
 				// value in the field beforehand: the fresh parser keeps that stored value
 				if init, ok := inits[refs[ref].Field().Name]; ok && init != "" && vb == init && !strings.Contains("\n"+text, "\n"+optionIniNameOf(refs[ref])+" =") {
 					key = "C12:omitted-as-default-but-field-preinitialised"
+				}
+				// omitted as equal to its default TAGS while an environment variable (which ranks above
+				// the tags) is set: the fresh parser takes the variable
+				if ek := refs[ref].EnvKeyWithNamespace(); ek != "" && !strings.Contains("\n"+text, "\n"+optionIniNameOf(refs[ref])+" =") {
+					for _, e := range cs.Env {
+						if e.K == ek {
+							key = "C12:omitted-as-default-but-env-variable-set"
+						}
+					}
 				}
 				// an explicitly empty slice/map whose default tag is non-empty cannot be expressed by the format
 				if (strings.HasPrefix(va, "L[") && va == "L[" || va == "M[") && len(refs[ref].Default) > 0 {
